@@ -1,9 +1,13 @@
 #!/bin/bash
-# usage: tools_mutant.sh <patch.diff> <check id...>   -- apply a patch to /repo, run quick checks, always revert.
-P="$1"; shift
-git -C /repo apply "$(realpath "$P")" || { echo "patch does not apply"; exit 2; }
-trap 'git -C /repo checkout -- . ' EXIT
+# usage: tools_mutant.sh <patch.diff> <check id...>
+# Applies a patch in a scratch worktree of /repo's HEAD (never in /repo itself), runs the quick checks
+# against it through VERIF_REPO, and removes the worktree again.
+P="$(realpath "$1")"; shift
+WT="$(mktemp -d /tmp/vmut.XXXXXX)"
+git -C /repo worktree add -q --detach "$WT" HEAD >/dev/null 2>&1 || { echo "cannot create worktree"; exit 2; }
+trap 'git -C /repo worktree remove --force "$WT" >/dev/null 2>&1; rm -rf "$WT"' EXIT
+git -C "$WT" apply "$P" || { echo "patch does not apply"; exit 2; }
 for c in "$@"; do
   echo "== $c with $(basename $P)"
-  VERIF_NO_EVIDENCE=1 ./vcheck "$c" --tier quick 2>&1 | grep -E "^(VIOLATION|KNOWN|HARNESS|C[0-9]+ tier|  bucket|  detail)" | head -12
+  VERIF_REPO="$WT" VERIF_NO_EVIDENCE=1 ./vcheck "$c" --tier "${TIER:-quick}" 2>&1 | grep -E "^(VIOLATION|KNOWN|HARNESS|C[0-9]+ tier|  bucket|  detail)" | head -${LINES_MAX:-9}
 done
